@@ -9,6 +9,7 @@ import (
 	"github.com/failsafe-go/failsafe-go"
 	"github.com/failsafe-go/failsafe-go/hedgepolicy"
 	"github.com/failsafe-go/failsafe-go/retrypolicy"
+	"github.com/failsafe-go/failsafe-go/timeout"
 
 	"verifharness/vk"
 )
@@ -47,10 +48,17 @@ func c17RetryHedge(rep *vk.Report, idx int) {
 	if nest == "hedge>retry" {
 		pols = []failsafe.Policy[int]{hp, rp}
 	}
+	// optionally a per-attempt Timeout (never expiring) innermost: it makes its own child copy of each attempt's execution
+	perAttemptTimeout := r.IntN(2) == 0
+	if perAttemptTimeout {
+		pols = append(pols, timeout.With[int](30*time.Second))
+	}
 	var done string
 	var doneBad bool
 	var dAttempts, dRetries, dHedges, dExecs int
+	var doneEv failsafe.ExecutionDoneEvent[int]
 	ex := failsafe.NewExecutor[int](pols...).OnDone(func(e failsafe.ExecutionDoneEvent[int]) {
+		doneEv = e
 		dExecs, dRetries, dHedges = e.Executions(), e.Retries(), e.Hedges()
 		dAttempts = e.Attempts()
 		done = fmt.Sprintf("Attempts=%d Retries=%d Hedges=%d Executions=%d", dAttempts, dRetries, dHedges, dExecs)
@@ -94,7 +102,7 @@ func c17RetryHedge(rep *vk.Report, idx int) {
 		_, err = ex.GetWithExecution(fn)
 	}
 	rep.Eval()
-	cs := map[string]any{"nesting": nest, "max_hedges": maxHedges, "hedge_delay_ns": int64(delay), "fail_first": failFirst}
+	cs := map[string]any{"nesting": nest, "per_attempt_timeout": perAttemptTimeout, "max_hedges": maxHedges, "hedge_delay_ns": int64(delay), "fail_first": failFirst}
 	viol := func(sig, msg string) {
 		rep.Violate(idx, "C17/"+sig, fmt.Sprintf("%s (%s, maxHedges %d, first %d invocations fail; done event %s; OnRetry=%d OnHedge=%d calls=%d; err=%v)", msg, nest, maxHedges, failFirst, done, onRetry.Load(), onHedge.Load(), calls.Load(), err), cs)
 	}
@@ -136,12 +144,25 @@ func c17RetryHedge(rep *vk.Report, idx int) {
 	}
 	// under hedge>retry a hedged branch retries on its own hedge copy, so several invocations belong to one hedge; with the
 	// hedge innermost every hedge is exactly one invocation
-	if nest == "retry>hedge" && int(hedgeEntries.Load()) > dHedges || int(plainEntries.Load()) > 1+dRetries {
+	// every started attempt has entered the function by now; once they have all returned, Executions (read through the done
+	// event, whose counters are the execution's own) equals the number of invocations that completed
+	for w := 0; w < 10000 && completed.Load() < calls.Load(); w++ {
+		time.Sleep(time.Millisecond)
+	}
+	// (the library counts an execution right after the function returns: awaited, bounded)
+	for w := 0; w < 5000 && completed.Load() == calls.Load() && doneEv.Executions() < int(completed.Load()); w++ {
+		time.Sleep(time.Millisecond)
+	}
+	if x := doneEv.Executions(); completed.Load() == calls.Load() && x != int(completed.Load()) {
+		viol("executions-vs-completed-invocations", fmt.Sprintf("after every started attempt returned, Executions() is %d but %d invocations of the function have completed", x, completed.Load()))
+		return
+	}
+	if nest == "retry>hedge" && int(hedgeEntries.Load()) != dHedges || int(plainEntries.Load()) > 1+dRetries {
 		viol("ishedge-disagrees-with-counters", fmt.Sprintf("%d invocations reported IsHedge()=true and %d reported false, but the execution started %d hedges and %d retries", hedgeEntries.Load(), plainEntries.Load(), dHedges, dRetries))
 		return
 	}
 	if dRetries > 0 && dHedges > 0 {
 		rep.Count("executions_with_both_retries_and_hedges", 1)
-		rep.Distinct(fmt.Sprintf("rh|%s|%d|%d|%d|%d", nest, maxHedges, failFirst, dRetries, dHedges))
+		rep.Distinct(fmt.Sprintf("rh|%s|%v|%d|%d|%d|%d", nest, perAttemptTimeout, maxHedges, failFirst, dRetries, dHedges))
 	}
 }
